@@ -75,7 +75,7 @@ def all_candidates():
     single = [(a, o) for a in ["ord", "partial_ord", "eq", "partial_eq"] for o in gen_cmp.attr_options(a)]
     out = []
     # no attributes: every shape (incl. unit-like ones), every subset, both entries
-    for sh in shapes + ["s_unit", "e_units3", "s_po", "e_data_unit"]:
+    for sh in shapes + ["s_unit", "e_units3", "s_po", "e_data_unit", "e_disc3", "e_disc_data"]:
         for ts in subsets:
             if sh == "s_po" and ({"Eq", "Ord"} & set(ts)):
                 continue
@@ -114,7 +114,7 @@ def all_candidates():
 def core_candidates():
     out = []
     all4 = ["Ord", "PartialOrd", "Eq", "PartialEq"]
-    for sh in ["s_named3", "s_named1", "s_tuple2", "s_named4", "s_gen", "e_mixed", "e_two", "e_single", "e_gen", "s_unit", "e_units3", "e_data_unit"]:
+    for sh in ["s_named3", "s_named1", "s_tuple2", "s_named4", "s_gen", "e_mixed", "e_two", "e_single", "e_gen", "s_unit", "e_units3", "e_data_unit", "e_disc3", "e_disc_data"]:
         out.append((sh, [], all4, "attr"))
         out.append((sh, [], ["PartialEq", "PartialOrd"], "derive"))
     out.append(("s_po", [], ["PartialOrd", "PartialEq"], "attr"))
